@@ -10,10 +10,12 @@
      * EXTENDS the proved first-order reference semantics (so C02_preservation's right-hand side is the same semantics),
      * is a function of the program alone once it is defined (more fuel never changes a result),
      * gives every textual site its own state (frame property of the state tree),
-     * satisfies the sugar equations for pipes and named-argument calls. *)
+     * satisfies the sugar equations for pipes and named-argument calls,
+     * takes the first matching arm of a `match` and leaves the other arms' state alone,
+     * makes `self` — of any first-order data type — the previous return value of the site, the zero value first. *)
 From Coq Require Import List ZArith NArith Bool.
 From Mimium Require Import StateTree.Model Lmmm.Syntax Lmmm.Ref Lmmm.Compile Lmmm.Machine Lmmm.Wf Lmmm.Spec Lmmm.Examples.
-From Mimium Require Import Lmmx.Syntax Lmmx.Ref Lmmx.Mono Lmmx.Conserv Lmmx.ConservProg Lmmx.Theorems Lmmx.World Lmmx.Examples.
+From Mimium Require Import Lmmx.Syntax Lmmx.Ref Lmmx.Mono Lmmx.Conserv Lmmx.ConservProg Lmmx.Theorems Lmmx.World Lmmx.MatchSelf Lmmx.Examples.
 Import ListNotations.
 
 (* Conservativity: for every well-formed first-order program p (Lmmm.Syntax.program) on which the proved reference
@@ -107,6 +109,67 @@ Theorem C02_ext_parameters_are_fresh_cells : forall ps vs r w r' w',
   w_clos w' = w_clos w /\ exists l, w_vars w' = w_vars w ++ l.
 Proof. exact bind_params_x_fresh. Qed.
 
+(* ---- sum types, match, multi-word self (rules M and S of Lmmx/Ref.v) ----
+   MATCH: `match e { m1 => e1, .. }` evaluates e and takes the FIRST arm whose pattern matches (no earlier arm matches); the
+   payload binders of that arm are bound, its body runs on the arm's own state subtree (child 1 + i of the match node) and
+   leaves its new state there; every arm that is not taken keeps its state subtree (like the arms of `if`). *)
+Theorem C02_ext_match_first_arm : forall n ft now sv r sc arms s w v s' w',
+  xeval (S n) ft now sv r (XMatch sc arms) s w = Ok (v, s', w') ->
+  exists vs k0 w1 i m body r' w2 kb,
+    xeval n ft now sv r sc (kid s 0) w = Ok (vs, k0, w1) /\
+    nth_error arms i = Some (m, body) /\ mtest m vs = Ok true /\
+    (forall j mj bj, j < i -> nth_error arms j = Some (mj, bj) -> mtest mj vs = Ok false) /\
+    mbind m vs r w1 = Ok (r', w2) /\
+    xeval n ft now sv r' body (kid s (S i)) w2 = Ok (v, kb, w') /\
+    kid s' 0 = k0 /\ kid s' (S i) = kb /\
+    (forall j, j < length arms -> j <> i -> kid s' (S j) = kid s (S j)).
+Proof. exact match_first_arm. Qed.
+
+(* SELF (a feedback value of any first-order data type: numbers, tuples, records, sum values — several machine words).
+   "`self` is the function's previous return value at that site": if a call at a site (rule D: the state node `inst` of the
+   textual call site) returned v1, then the NEXT call at that site runs the function body with the feedback cell holding
+   (the encoding of) v1, and `self`, read at the shape of v1, evaluates to v1. *)
+Theorem C02_ext_self_is_previous_value : forall n ft now k fe vs1 vs2 inst w v1 inst1 w1 sh,
+  nth_error ft k = Some fe ->
+  call_fun ft (xeval n ft now) k vs1 inst w = Ok (v1, inst1, w1) ->
+  has_shape sh v1 ->
+  call_fun ft (xeval n ft now) k vs2 inst1 w1 =
+    (do (r, w2) <- bind_params_x (map fst (fe_params fe)) vs2 (fe_env fe) w1;
+     do (v, kb, w3) <- xeval n ft now (enc v1) r (fe_body fe) (kid inst1 0) w2;
+     Ok (v, self_node v kb, w3)) /\
+  (forall m r s w0, xeval (S m) ft now (enc v1) r (XSelfS sh) s w0 = Ok (v1, st0, w0)).
+Proof. exact self_is_previous_value. Qed.
+
+(* ... zero value first: at the first call of a site (never-touched state st0) `self` is the all-zero value of the shape: 0,
+   tuples / records of zero values, the FIRST constructor of a sum type with a zero payload *)
+Theorem C02_ext_self_is_zero_first : forall n ft now k fe vs w sh,
+  nth_error ft k = Some fe ->
+  call_fun ft (xeval n ft now) k vs st0 w =
+    (do (r, w1) <- bind_params_x (map fst (fe_params fe)) vs (fe_env fe) w;
+     do (v, kb, w2) <- xeval n ft now st0 r (fe_body fe) st0 w1;
+     Ok (v, self_node v kb, w2)) /\
+  (forall m r s w0, xeval (S m) ft now st0 r (XSelfS sh) s w0 = Ok (zero_val sh, st0, w0)).
+Proof. exact self_is_zero_first. Qed.
+
+(* the same for a closure instance (rule I): a call of instance id runs its body with the feedback cell of the instance's
+   state and stores the returned value there *)
+Theorem C02_ext_instance_feedback : forall rec id vs w v w' c,
+  nth_error (w_clos w) id = Some c ->
+  call_inst rec id vs w = Ok (v, w') ->
+  exists r w1 kb w2, bind_params_x (ci_params c) vs (ci_env c) w = Ok (r, w1) /\
+    rec (self_part (ci_state c)) r (ci_body c) (kid (ci_state c) 0) w1 = Ok (v, kb, w2) /\
+    w' = set_clo_state w2 id (self_node v kb).
+Proof. exact call_inst_feedback. Qed.
+
+(* the cell after a call is the encoding of the returned value; reading an encoded value back at its shape is the identity;
+   the number-valued `self` of the first-order fragment is the shape SNum *)
+Theorem C02_ext_feedback_cell_holds_value :
+  (forall ft rec k vs inst w v inst' w', call_fun ft rec k vs inst w = Ok (v, inst', w') -> self_part inst' = enc v) /\
+  (forall sh v, has_shape sh v -> dec sh (enc v) = v) /\
+  (forall sh, dec sh st0 = zero_val sh) /\
+  (forall n ft now sv r s w, xeval (S n) ft now sv r XSelf s w = xeval (S n) ft now sv r (XSelfS SNum) s w).
+Proof. exact (conj call_fun_feedback (conj dec_enc (conj dec_st0 xself_is_selfs_num))). Qed.
+
 (* concrete closure programs (the corpus cases of the same names run on the real backends) *)
 Example C02_ext_ex_counter : xrun 20 ex_counter rows4 = Ok [[1]; [2]; [3]; [4]]%Z.
 Proof. exact ex_counter_run. Qed.
@@ -128,3 +191,18 @@ Example C02_ext_ex_embedding :
 Proof. exact ex_embed_prog2_run. Qed.
 Example C02_ext_ex_out_of_fuel : xrun 2 ex_counter rows4 = OutOfFuel.
 Proof. exact ex_counter_fuel. Qed.
+Example C02_ext_ex_sum_self : xrun 20 ex_sum_self rows4 = Ok [[1]; [2]; [4]; [1000]]%Z.
+Proof. exact ex_sum_self_run. Qed.
+Example C02_ext_ex_tuple_self : xrun 20 ex_tuple_self rows4 = Ok [[100]; [201]; [303]; [406]]%Z.
+Proof. exact ex_tuple_self_run. Qed.
+Example C02_ext_ex_match_arm_state :
+  xrun 20 ex_match_arm_state [[]; []; []; []; []; []] = Ok [[1]; [200]; [10]; [2]; [200]; [20]]%Z.
+Proof. exact ex_match_arm_state_run. Qed.
+Example C02_ext_ex_match_wild_first : xrun 20 ex_match_wild_first [[]; []; []] = Ok [[30]; [30]; [30]]%Z.
+Proof. exact ex_match_wild_first_run. Qed.
+Example C02_ext_ex_no_arm_is_stuck : xrun 20 (mkXProg [] [] [] [XMatch XNow [(MLit 0, XLit 10)]]) [[]; []] = Stuck E_NOMATCH.
+Proof. exact ex_no_arm_stuck. Qed.
+Example C02_ext_ex_dec_enc :
+  Lmmx.Syntax.dec sh_T (Lmmx.Syntax.enc (VCon 0 (VTup [VNum 5; VNum 6]))) = VCon 0 (VTup [VNum 5; VNum 6]) /\
+  has_shape sh_T (VCon 0 (VTup [VNum 5; VNum 6])) /\ Lmmx.Syntax.dec sh_T st0 = VCon 0 (VTup [VNum 0; VNum 0]).
+Proof. exact ex_dec_enc. Qed.
